@@ -269,6 +269,8 @@ def expectation(v, flavour, op):
         # removal steps are not idempotent (the second one addresses an element that is already gone and raises):
         # such a call is not an 'applicable removal'
         nested = any(y in with_artefacts(v, owned(v, z))[0] for y in t for z in t if y != z)
+        if prune_skips_gone():
+            nested = False        # the repaired prune skips what is already gone: overlapping marks are fine
         return (not multi_peer(o)) and not nested, exp, sps, 'overlapping marks' if nested else ''
     return False, None, {}, 'unknown op'
 
@@ -290,6 +292,18 @@ def frame_violation(pre, post):
 
 
 _PATHLESS = []
+_PRUNE_SKIPS = []
+
+
+def prune_skips_gone():
+    """does the RUNNING library's prune skip what an earlier pruning step already removed and disconnect before removing
+    (proposed_fixes/C08-7)?  Selects the transcription OPrune7 and makes overlapping marks an applicable removal."""
+    if not _PRUNE_SKIPS:
+        import inspect
+        from fim.user.topology import ExperimentTopology
+        _PRUNE_SKIPS.append('node_exists' in inspect.getsource(ExperimentTopology._prune_ns))
+    return _PRUNE_SKIPS[0]
+
 
 
 def unpeer_is_pathless():
@@ -467,7 +481,7 @@ class Removals(Stream):
         elif k == 'remove_child':
             t = 'ORemoveChild %d %d' % (ids[o['hids'][0]], nm(op[2]))
         else:
-            t = 'OPrune'
+            t = 'OPrune7' if prune_skips_gone() else 'OPrune'
         cached = k in ('disconnect', 'unpeer', 'remove_interface', 'remove_child')
 
         def cl(lists):
